@@ -4,4 +4,4 @@ CONSTANTS
   NewLen = 9
 INIT Init
 NEXT Next
-INVARIANTS Recoverable AlwaysLoadable SaveCompletes
+INVARIANTS Recoverable AlwaysLoadable SaveCompletes NeverRefuses
